@@ -3,7 +3,7 @@
 W=${SCRATCH:-/tmp/w0}
 [ $# -eq 0 ] && set -- /verif/neutral/*/patch.diff
 for p in "$@"; do
-  git -C "$W" checkout -q --detach "$(git -C /repo rev-parse HEAD)" && git -C "$W" checkout -q -- . && git -C "$W" clean -qfd
+  git -C "$W" checkout -q -- . ; git -C "$W" clean -qfd; git -C "$W" checkout -q --detach "$(git -C /repo rev-parse HEAD)"
   if ! git -C "$W" apply "$p" 2>/dev/null; then echo "$p: PATCH-DOES-NOT-APPLY"; continue; fi
   out=$(${WASPCHECK:-/verif/bin/waspcheck} -p all -repo "$W" -out /tmp/ev_neu 2>&1 | grep -E "^VIOLATION|^  rule |^  [a-z-].*: " | cut -c1-260)
   if [ -z "$out" ]; then echo "$p: silent"; else echo "$p: ALARM"; echo "$out"; fi
